@@ -109,7 +109,7 @@ namespace xsimd
         template <size_t N, class A>
         XSIMD_INLINE batch<uint16_t, A> rotate_left(batch<uint16_t, A> const& self, requires_arch<ssse3>) noexcept
         {
-            return _mm_alignr_epi8(self, self, 2 * N); // byte count
+            return _mm_alignr_epi8(self, self, (2 * N) % 16); // byte count, wrapping like the generic kernel for N >= size
         }
         template <size_t N, class A>
         XSIMD_INLINE batch<int16_t, A> rotate_left(batch<int16_t, A> const& self, requires_arch<ssse3>) noexcept
